@@ -27,7 +27,7 @@ def _pt_affine32(u):
 
 
 PRIORS = {"affine32": _pt_affine32, "affine": targets.pt_affine, "nonlinear": targets.pt_nonlinear, "identity": targets.pt_identity}
-BOUNDARY = {"none": (None, None), "per0": ([0], None), "ref1": (None, [1]), "per0ref1": ([0], [1]), "ref0": (None, [0]), "per1": ([1], None)}
+BOUNDARY = {"empty": ([], []), "tuples": ((0,), (1,)), "none": (None, None), "per0": ([0], None), "ref1": (None, [1]), "per0ref1": ([0], [1]), "ref0": (None, [0]), "per1": ([1], None)}
 
 
 class LL:
@@ -154,6 +154,16 @@ class Event:
 
 
 _ACTIVE = None
+_REG = {}        # id(StateManager) -> Probe : several samplers alive and instrumented at the same time (duo sessions)
+_IN_MUTATE = None
+
+
+def _probe_for(state):
+    p = _ACTIVE
+    if p is not None and state is p.sampler.state:
+        return p
+    q = _REG.get(id(state))
+    return q if (q is not None and q.sampler.state is state) else None
 
 
 @contextlib.contextmanager
@@ -169,8 +179,8 @@ def instrumented():
     o_rw, o_tr, o_rs, o_mu, o_cm, o_pm = saved
 
     def w_rw(self):
-        p = _ACTIVE
-        if p is not None and self.state is p.sampler.state:
+        p = _probe_for(self.state)
+        if p is not None:
             p._begin_iter()
             w = o_rw(self)
             p._emit("reweight", weights=w)
@@ -178,8 +188,8 @@ def instrumented():
         return o_rw(self)
 
     def w_tr(self, weights):
-        p = _ACTIVE
-        if p is not None and self.state is p.sampler.state:
+        p = _probe_for(self.state)
+        if p is not None:
             win = np.array(weights, copy=True)
             ms = o_tr(self, weights)
             p._emit("train", weights_in=win, mode_stats=ms)
@@ -187,8 +197,8 @@ def instrumented():
         return o_tr(self, weights)
 
     def w_rs(self, weights):
-        p = _ACTIVE
-        if p is not None and self.state is p.sampler.state:
+        p = _probe_for(self.state)
+        if p is not None:
             win = np.array(weights, copy=True)
             r = o_rs(self, weights)
             p._emit("resample", weights_in=win)
@@ -196,17 +206,23 @@ def instrumented():
         return o_rs(self, weights)
 
     def w_mu(self, mode_stats):
-        p = _ACTIVE
-        if p is not None and self.state is p.sampler.state:
+        global _IN_MUTATE
+        p = _probe_for(self.state)
+        if p is not None:
             p.kernel_calls = []
-            r = o_mu(self, mode_stats)
+            prev_m = _IN_MUTATE
+            _IN_MUTATE = p
+            try:
+                r = o_mu(self, mode_stats)
+            finally:
+                _IN_MUTATE = prev_m
             p._emit("mutate", mode_stats=mode_stats, kernel_calls=p.kernel_calls)
             return r
         return o_mu(self, mode_stats)
 
     def w_cm(self, *a, **k):
-        p = _ACTIVE
-        if p is not None and self is p.sampler.state and p.in_iter:
+        p = _probe_for(self)
+        if p is not None and p.in_iter:
             r = o_cm(self, *a, **k)
             p._emit("commit")
             p.in_iter = False
@@ -214,7 +230,7 @@ def instrumented():
         return o_cm(self, *a, **k)
 
     def w_pm(*a, **k):
-        p = _ACTIVE
+        p = _IN_MUTATE if _IN_MUTATE is not None else _ACTIVE
         if p is not None:
             rec = {kk: (vv.copy() if isinstance(vv, np.ndarray) else vv) for kk, vv in k.items()}
             out = o_pm(*a, **k)
